@@ -10,7 +10,8 @@ PROPERTY = 'C16'
 RULE = ('full product: every target string over {A,K} of length 0..L x every query of length 1..4 x ignore_mods; '
         'modified layer: every target of length<=Lm with a tagged modification at every residue/terminus x every '
         'query with/without tags (one or two modifications per site, either order); interval layer: every target with one '
-        'modified interval x every query with/without an interval; coverage/percent over every ordered list of <=2 queries '
+        'modified interval x every query with/without an interval; global layer: 9 whole-peptide annotations on target x '
+        'query; coverage/percent over every ordered list of <=2 queries '
         '(strings, annotation objects, mixed); a state is distinct by '
         'its (kind,target,query-set) tuple and non-trivial when the target is non-empty and at least one query occurs')
 ASSUMPTIONS = ['residue alphabet {A,K} forces overlapping occurrences; tags are numeric mass shifts 1,2',
@@ -18,6 +19,7 @@ ASSUMPTIONS = ['residue alphabet {A,K} forces overlapping occurrences; tags are 
                'order-insensitive containment is evaluated on peptides with residue modifications only']
 
 ALPHA = 'AK'
+GLOBALS = ['', '/2', '/2[+2Na+]', '/3', '/2[+Na+,+H+]', '<13C>', '<[1]@K>', '{Glycan:Hex}', '[Phospho]?']
 
 
 def describe(tier):
@@ -41,6 +43,7 @@ def shards(tier):
         out += [{'kind': 'mod', 'n': n, 'pre': a} for a in ALPHA]
         if n >= 2:
             out += [{'kind': 'iv', 'n': n, 'pre': a} for a in ALPHA]
+        out += [{'kind': 'glob', 'n': n, 'pre': a} for a in ALPHA]
         out += [{'kind': 'unordered', 'n': n, 'pre': ''.join(t), 'tm0': m0}
                 for t in itertools.product(ALPHA, repeat=n) for m0 in (0, 1, 2)]
     return out
@@ -65,6 +68,10 @@ def gen(shard, tier):
                 if tslot is not None:
                     yield {'kind': 'mod', 't': t, 'tslot': tslot, 'ttag': 11}, n + 2, True
                     yield {'kind': 'mod', 't': t, 'tslot': tslot, 'ttag': 12}, n + 2, True
+    elif shard['kind'] == 'glob':
+        for t in _strings(n, n):
+            if t.startswith(pre):
+                yield {'kind': 'glob', 't': t}, n + 1, True
     elif shard['kind'] == 'iv':
         for t in _strings(n, n):
             if not t.startswith(pre):
@@ -234,6 +241,34 @@ def check(case, ctx):
                                                 ctx.fail('coverage-list', exp, got, call=['coverage', ts, texts, acc, False],
                                                          given_as=form)
         ctx.outcome = [ts, nocc]
+    elif kind == 'glob':
+        # annotations of the whole peptide (charge, adducts, label, global rule, labile, unknown position) belong to the
+        # comparison: a query is found where its residues occur iff it carries the same ones as the target
+        t = case['t']
+        n = len(t)
+        nocc = 0
+
+        def wr(g, seq):
+            return seq + g if g.startswith('/') else g + seq
+        for m in (1, 2):
+            for q in _strings(m, m):
+                plain = [i for i in range(0, n - m + 1) if t[i:i + m] == q]
+                for gt in GLOBALS:
+                    for gq in GLOBALS:
+                        ts, qs = wr(gt, t), wr(gq, q)
+                        exp = plain if gt == gq else []
+                        nocc += len(exp)
+                        st, got = lib.call(p.find_subsequence_indices, ts, qs, False)
+                        ctx.evals += 1
+                        if st != 'ok' or sorted(got) != exp:
+                            ctx.fail('find-global', exp, got, call=['find_subsequence_indices', ts, qs, False])
+                        if gq == GLOBALS[1] or gt == gq:
+                            st, got = lib.call(p.find_subsequence_indices, ts, qs, True)
+                            ctx.evals += 1
+                            if st != 'ok' or sorted(got) != plain:
+                                ctx.fail('find-global-ignore-mods', plain, got,
+                                         call=['find_subsequence_indices', ts, qs, True])
+        ctx.outcome = [t, nocc]
     elif kind == 'iv':
         t = case['t']
         n = len(t)
